@@ -24,7 +24,8 @@ def gen_strings(rng, n):
 
 
 # *_map / *_list: the value sits inside a mapping or a list nested in the loop item / vars / set_vars value
-CHANNELS = ["direct", "loop", "vars", "set_vars", "register", "loop_map", "loop_list", "vars_map", "set_vars_map"]
+# shadow: the variable carrying the value has the NAME of an earlier parameter of the same task (mode / chdir): the user's variable must win
+CHANNELS = ["direct", "loop", "vars", "set_vars", "register", "loop_map", "loop_list", "vars_map", "set_vars_map", "shadow"]
 
 
 def script(channel, root):
@@ -57,6 +58,12 @@ def script(channel, root):
     elif channel == "register":
         pre = "- command:\n    argv: [sh, -c, 'printf %s \"$VP\"']\n  register: r\n"
         use = "{{ r.output }}"
+    if channel == "shadow":
+        s = "#!/usr/bin/env rash\n"
+        s += "- copy:\n    mode: \"0644\"\n    dest: \"%s/out/file\"\n    content: \"{{ mode }}\"\n  vars:\n    mode: \"%s\"\n" % (root, src)
+        s += ("- command:\n    chdir: \"%s/out\"\n    argv: [\"%s\", argvdump, \"%s/out/argv\", \"{{ chdir }}\", \"second arg\"]\n  vars:\n    chdir: \"%s\"\n"
+              % (root, helper, root, src))
+        return s
     s = "#!/usr/bin/env rash\n" + pre
     s += "- copy:\n    content: \"%s\"\n    dest: \"%s/out/file\"\n%s" % (use, root, extra)
     s += "- command:\n    argv: [\"%s\", argvdump, \"%s/out/argv\", \"%s\", \"second arg\"]\n%s" % (helper, root, use, extra)
@@ -123,7 +130,7 @@ def c12(run, replay=None):
             continue
         desc = dict(value=v, channel=ch, observed=dict(rc=o["rc"], file=None if o["file"] is None else o["file"].decode("utf-8", "replace"),
                                                        argv=None if o["argv"] is None else [a.decode("utf-8", "replace") for a in o["argv"]], stderr=o["stderr"]))
-        if ch in ("vars", "set_vars", "vars_map", "set_vars_map") and cls[v]["retyped"]:
+        if ch in ("vars", "set_vars", "vars_map", "set_vars_map", "shadow") and cls[v]["retyped"]:
             if ch.startswith("set_vars") and cls[v]["has_open"]:
                 run.known("K6-set-vars-renders-twice", "")
             else:
